@@ -1,6 +1,7 @@
 package props
 
 import (
+	"time"
 	"encoding/json"
 	"fmt"
 	"net/http"
@@ -72,9 +73,17 @@ func binConfig(o gwOpts) gwproc.Config {
 }
 
 // binFor returns a running instance for the (resolved) options and the target to reach it as user.
+// binUseRace makes binFor start the race-detector build of the gateway (units that look for state shared between tunnels).
+var binUseRace bool
+
 func binFor(o gwOpts, user string) (*gwproc.Inst, gwc.Target, error) {
 	kb, _ := json.Marshal(o)
 	key := string(kb)
+	so := gwproc.StartOpts{}
+	if binUseRace {
+		key = "race/" + key
+		so = gwproc.StartOpts{Bin: gwproc.BinRace(), Wait: 30 * time.Second}
+	}
 	binMu.Lock()
 	defer binMu.Unlock()
 	in := binPool[key]
@@ -86,7 +95,7 @@ func binFor(o gwOpts, user string) (*gwproc.Inst, gwc.Target, error) {
 	}
 	if in == nil {
 		var err error
-		in, err = gwproc.Start(binConfig(o), gwproc.StartOpts{})
+		in, err = gwproc.Start(binConfig(o), so)
 		if err != nil {
 			return nil, gwc.Target{}, err
 		}
